@@ -8,6 +8,7 @@ META = dict(
     model_run='PG.Model.Scopes.run',
     model_targets=['Model/Scopes.vo'],
     instance_obligations=[
+        'generated two-store managers (dynamic_evaluate with base.set_dynamic_evaluate_fn inlined, load_types_for_deserialization, contextual_scope loop) satisfy their characterisation lemmas (Proofs/ScopesRestore.v)',
         'generated_keys_distinct (Proofs/ScopesInstance.v: the thread-local keys regenerated from the source are pairwise distinct, vm_compute)',
         'generated_flags_cover (Proofs/ScopesInstance.v: every flag manager the property names has a generated value scope and a getter on the same key)',
         'generated scope definitions satisfy the restore lemmas (Proofs/ScopesRestore.v re-checked against the regenerated Gen/ScopeDefs.v)'],
@@ -20,8 +21,8 @@ META = dict(
                 'documented nesting rule; for every interleaving of machine steps of any number of threads a thread that uses thread-local managers behaves exactly as when run alone; '
                 'only dynamic_evaluate(per_thread=False) and load_types_for_deserialization touch the process-wide store.'),
     level_note=('Trusted: Coq kernel; translator harness/translators/scope_defs.py; ScopesBase.v primitives (tied to thread_local.py by source fingerprints and by the correspondence); '
-                'extraction cross-checked against vm_compute. Hand-written, tied by correspondence only: contextual_scope, _DetourContext.enter_scope, dynamic_evaluate, '
-                'load_types_for_deserialization. Not modelled: what the settings DO (formatting, type checking, ...); values are small atoms / flat dicts.'),
+                'extraction cross-checked against vm_compute. Hand-written, tied by correspondence only: _DetourContext.enter_scope/leave_scope (pg.detour, pg.apply_wrappers); '
+                'every other manager is regenerated from the source. What the settings DO (formatting, type checking, ...) is not modelled: it is probed by the oracle only; values are small atoms / flat dicts.'),
     rule=('a case is a well-nested program (or 2-4 programs and an event schedule); distinct by canonical program text; non-trivial when some scope is nested inside another scope '
           'or is left by an exception, or when at least two threads are inside scopes at the same time'),
     trusted_base=['translator harness/translators/scope_defs.py (fail-closed Python-subset compiler)',
